@@ -95,7 +95,7 @@ func (g *Exec) strLit() *Node {
 }
 
 func (g *Exec) tpl() *Node {
-	bodies := []string{"", "t", "two words", "line1\nline2", "trail  \n  next", "a\\`b", "sl\\\\", "it's \"q\"", "// not", "$", "{x}", "tab\\there"}
+	bodies := []string{"", "t", "two words", "line1\nline2", "trail  \n  next", "esc\\` tick  \n  after", "a\\`b", "sl\\\\", "it's \"q\"", "// not", "$", "{x}", "tab\\there"}
 	b := bodies[g.R.IntN(len(bodies))]
 	if v := g.pickVar(tNum, false); v != nil && g.R.IntN(3) == 0 {
 		b = "v=${" + v.name + "} " + b
